@@ -185,6 +185,10 @@ class Fold:
         dk = n.get("dk")
         if dk in ("local", "param", "staticlocal", "binding"):
             if self.opaque_types and re.search(self.opaque_types, n.get("type") or ""):
+                # opaque values stay named atoms - except parameters bound by an inlined call and reference locals, which
+                # are aliases of what they were bound to
+                if n.get("decl") in getattr(self, "transparent", ()) and n.get("decl") in env:
+                    return env[n["decl"]]
                 return S(n["name"])
             if n.get("decl") in env:
                 return env[n["decl"]]
@@ -502,8 +506,10 @@ class Fold:
                 if isinstance(key, tuple):
                     sub[key] = v
         bound = {}
+        self.transparent = getattr(self, "transparent", set())
         for p_, a in zip(params, arg_nodes):
             sub[p_["decl"]] = bound[p_["decl"]] = self.ev(a, env)
+            self.transparent.add(p_["decl"])
         if not hasattr(self, "root"):
             self.root = self.f
         self.stack = getattr(self, "stack", [])
@@ -715,6 +721,10 @@ class Fold:
         k = lhs.get("k")
         if k == "ref" and lhs.get("dk") in ("local", "param", "staticlocal"):
             env[lhs["decl"]] = val
+            tgt = getattr(self, "ref_of", {}).get(lhs["decl"])
+            if tgt is not None and not (lhs.get("type") or "").lstrip().startswith("const "):
+                # assignment through a reference local: the referent is what changes
+                self.event({"kind": "store", "target": show(tgt), "target_node": tgt, "field": tgt.get("field"), "value": val, "node": node, "via": lhs.get("name")}, env)
             return
         if k == "member":
             env[("field", show(lhs))] = val
@@ -823,6 +833,13 @@ class Fold:
             for d in s["decls"]:
                 if d.get("init") is not None:
                     env[d["decl"]] = self.ev(d["init"], env)
+                    t_ = (d.get("type") or "").strip()
+                    i0 = unwrap(d["init"])
+                    if t_.endswith("&") and i0 is not None and i0.get("k") in ("member", "mcall", "opcall", "subscript", "unop"):
+                        self.transparent = getattr(self, "transparent", set())
+                        self.transparent.add(d["decl"])
+                        self.ref_of = getattr(self, "ref_of", {})
+                        self.ref_of[d["decl"]] = i0
                 else:
                     t = d.get("type") or ""
                     if is_vec3(t):
